@@ -12,8 +12,12 @@ import dataclasses
 import typing
 
 try:  # crosshair is only needed when a path is explored symbolically
+    from crosshair.enforce import NoEnforce
     from crosshair.tracers import NoTracing, is_tracing
 except Exception:  # pragma: no cover
+
+    def NoEnforce(fn):  # type: ignore
+        return fn
 
     def is_tracing() -> bool:
         return False
@@ -42,6 +46,7 @@ class Path:
         self.known_hits: list[tuple[str, str]] = []
         self.notes: dict[str, typing.Any] = {}
         self.oracle_evals = 0
+        self.default_prop = ""
 
     # -- called by harness bodies ------------------------------------------
     def cover(self, label: str) -> None:
@@ -50,18 +55,25 @@ class Path:
     def note(self, **kw: typing.Any) -> None:
         self.notes.update(kw)
 
-    def check(self, cond: typing.Any, clause: str, sig: typing.Any = None) -> bool:
-        """Oracle clause.  `cond` may be symbolic: bool() forks the path."""
+    def check(self, cond: typing.Any, clause: str, sig: typing.Any = None,
+              prop: str | None = None) -> bool:
+        """Oracle clause.  `cond` may be symbolic: bool() forks the path.
+        `prop`: the property this clause belongs to when a harness serves
+        several; clauses of other properties than the one being checked are
+        not evaluated."""
+        if prop is not None and ACTIVE_PROP and prop != ACTIVE_PROP:
+            return True
+        if prop is None and ACTIVE_PROP and self.default_prop and self.default_prop != ACTIVE_PROP:
+            return True
         self.oracle_evals += 1
         if cond:
             return True
         s = sig() if callable(sig) else sig
-        self.fail(clause, s if s is not None else clause)
+        self.failures.append((clause, str(s if s is not None else clause)))
         return False
 
-    def fail(self, clause: str, sig: str | None = None) -> None:
-        self.oracle_evals += 1
-        self.failures.append((clause, str(sig if sig is not None else clause)))
+    def fail(self, clause: str, sig: str | None = None, prop: str | None = None) -> None:
+        self.check(False, clause, sig, prop)
 
     def reached(self) -> None:
         self.oracle_evals += 1
@@ -71,6 +83,7 @@ P = Path()
 
 # what the worker sets before analysing / replaying
 MODE = "check"  # "check" | "twin" | "replay"
+ACTIVE_PROP = ""  # property whose clauses count on this run ("" = all)
 SHARD: dict[str, typing.Any] = {}
 KNOWN: dict[str, set[str]] = {}  # property -> set of known signatures
 PATH_LOG: list[dict[str, typing.Any]] = []  # one record per completed path
@@ -98,6 +111,13 @@ class Harness:
     engine: str = "E1"
     symbolic: str = ""
     also: tuple[str, ...] = ()
+    per_prop: dict[str, dict[str, list[dict[str, typing.Any]]]] = dataclasses.field(default_factory=dict)
+
+    def shards(self, prop: str, tier: str) -> list[dict[str, typing.Any]]:
+        pp = self.per_prop.get(prop)
+        if pp and tier in pp:
+            return pp[tier]
+        return self.quick if tier == "quick" else self.thorough
 
     @property
     def key(self) -> str:
@@ -127,6 +147,7 @@ def harness(
     stubs: typing.Sequence[str] = (),
     symbolic: str = "",
     also: typing.Sequence[str] = (),
+    per_prop: dict[str, dict[str, list[dict[str, typing.Any]]]] | None = None,
 ) -> typing.Callable[[typing.Callable[..., typing.Any]], typing.Callable[..., bool]]:
     """Register a CrossHair harness.
 
@@ -146,11 +167,14 @@ def harness(
         @functools.wraps(raw)
         def wrapper(*a: typing.Any, **kw: typing.Any) -> bool:
             P.reset()
-            raw(*a, **kw)
+            P.default_prop = prop
+            # the body's own docstring contract must not be enforced on the
+            # inner call (it returns None; the verdict is computed below)
+            NoEnforce(raw)(*a, **kw)
             # classify failures against the known-findings list
             live = []
             for clause, sig in P.failures:
-                if _signature_known(prop, name, sig):
+                if _signature_known(ACTIVE_PROP or prop, name, sig):
                     P.known_hits.append((clause, sig))
                 else:
                     live.append((clause, sig))
@@ -186,6 +210,7 @@ def harness(
             module=raw.__module__,
             symbolic=symbolic,
             also=tuple(also),
+            per_prop=per_prop or {},
         )
         if h.key in REGISTRY:
             raise HarnessError(f"duplicate harness {h.key}")
